@@ -10,6 +10,7 @@ import (
 	"github.com/cloudwego/gopkg/container/strmap"
 
 	"verif/mc"
+	"verif/vdump"
 )
 
 // C07 — read-only string maps answer exactly like a Go map.
@@ -72,7 +73,10 @@ func c07SlotsFor(n int) int {
 	if err := m.LoadFromSlice(kk, vv); err != nil {
 		panic(err)
 	}
-	return m.VerifSlots()
+	if l := vdump.IntSliceLens(m); len(l) > 0 {
+		return l[0] // the slot table, found by its shape (a slice of integers), not by its name
+	}
+	return 0
 }
 
 var c07SlotCache = map[int]int{}
@@ -94,7 +98,8 @@ type c07Map interface {
 	length() int
 	items() []string // "key=valueid", sorted; nil if the type has no enumeration
 	digest() string
-	str() string // the type's String() method ("" if it has none): a read-only operation
+	str() string   // the type's String() method ("" if it has none): a read-only operation
+	hasSync() bool // the type holds a synchronisation primitive: a change of private state may be legitimate
 }
 
 type c07Int struct{ m *strmap.StrMap[int] }
@@ -139,7 +144,8 @@ func (x c07Int) items() []string {
 	sort.Strings(r)
 	return r
 }
-func (x c07Int) digest() string { return x.m.VerifDigest() }
+func (x c07Int) hasSync() bool  { return vdump.HasSync(x.m) }
+func (x c07Int) digest() string { return vdump.Key(x.m, vdump.Opt{Content: true}) }
 func (x c07Int) str() string    { return x.m.String() }
 
 type c07St struct{ m *strmap.StrMap[c07Struct] }
@@ -187,7 +193,8 @@ func (x c07St) items() []string {
 	sort.Strings(r)
 	return r
 }
-func (x c07St) digest() string { return x.m.VerifDigest() }
+func (x c07St) hasSync() bool  { return vdump.HasSync(x.m) }
+func (x c07St) digest() string { return vdump.Key(x.m, vdump.Opt{Content: true}) }
 func (x c07St) str() string    { return x.m.String() }
 
 type c07S2S struct{ m *strmap.Str2Str }
@@ -238,8 +245,9 @@ func (x c07S2S) get(k string) (int, bool) {
 func (x c07S2S) getStr(k string) (string, bool) { return x.m.Get(k) }
 func (x c07S2S) length() int                    { return x.m.Len() }
 func (x c07S2S) items() []string                { return nil }
-func (x c07S2S) digest() string                 { return x.m.VerifInner().VerifDigest() }
-func (x c07S2S) str() string                    { return fmt.Sprint(x.m.VerifInner()) }
+func (x c07S2S) hasSync() bool                  { return vdump.HasSync(x.m) }
+func (x c07S2S) digest() string                 { return vdump.Key(x.m, vdump.Opt{Content: true}) }
+func (x c07S2S) str() string                    { return "n/a" } // no String method
 
 func c07New(kind string) c07Map {
 	switch kind {
@@ -343,8 +351,8 @@ func c07Hist(c *mc.Ctx, k c07Case, _ func(slots int) []int) {
 					}
 				}
 			}
-			if d1 := m.digest(); d1 != d0 {
-				bad("get-writes", "%s: a read-only operation (String, Get) modified the map's private state (digest %s -> %s); later answers and concurrent readers are affected", when, d0, d1)
+			if d1 := m.digest(); d1 != d0 && !m.hasSync() {
+				bad("get-writes", "%s: a read-only operation (String, Get) modified the private state of a map that holds no synchronisation primitive (digest %s -> %s): the map is not read-only", when, d0, d1)
 				return false
 			}
 			return true
